@@ -59,7 +59,7 @@ PROPS = {
              "list of paths does not terminate in Go and is excluded; nil PathElems are not generated.",
         coq_files=["Path/PathRel", "Path/PathRelProofs", "Corr/PathRelCorr"],
         streams=[dict(name="pathrel", n=N(2400, 20000))],
-        signatures=["compare", "trim-join", "common-prefix", "elem-equal"],
+        signatures=["compare", "trim-join", "common-prefix", "elem-equal", "join"],
         trusted=["a PathElem key map is an association list in arbitrary order (order independence is a theorem)"],
         partial="PathMatchesPrefix (string prefix) and PathElemsEqual are covered by the correspondence stream only.",
     ),
